@@ -95,6 +95,7 @@ func (s *streamer) getStream(streamID StreamID, streamName StreamName) *stream {
 }
 
 func (s *streamer) makeCharged(stream *stream) {
+	verifhook.Point("streamer.makeCharged.enter")
 	s.chargedMu.Lock()
 	s.charged = append(s.charged, stream)
 	s.chargedCond.Signal()
